@@ -31,6 +31,12 @@ package agreement
 //	                                       the harness has begun the shutdown; whatever the incarnation still does is discarded
 //	                                       (network output dropped, DB reverted to the snapshot); then the node restarts on it
 //
+//	pfail <n> <k>                          fault injection: the persist of node n's k-th next attest FAILS (the Service table of the
+//	                                       crash DB is hidden around the real persist() call, the previous row stays), and the vote
+//	                                       task of that attest is held before its wait on persistStateDone until the checkpoint
+//	                                       action of the attest has started (the order "disk faster than signing")
+//	wdelay <n> <k>                         the same order without the failure
+//
 // Environment: as NetDrive, plus VERIF_C02_ARM (per-mille of decisions that arm a hook crash, default by profile),
 // VERIF_C02_EXTRA (generated decisions appended after a replayed schedule, default 0).
 
@@ -70,22 +76,32 @@ type c02Node struct {
 	snapDone chan struct{}
 	unblock  chan struct{} // the goroutine that hit the crash point waits here (holding hm) until the shutdown has begun
 	stopping bool          // a shutdown is in progress: a crash point reached now does not block
+	// persist-failure / order injection (pfail, wdelay): the k-th next attest of the node is marked at its `attest` point
+	markLeft   int
+	markFail   bool
+	markDone   chan error // the persistStateDone channel of the marked attest
+	markCkpt   bool       // its checkpointAction.do has started
+	markWaited bool       // its vote task passed the wait (waitend)
+	failActive bool       // owned by the persistence goroutine: the Service table is hidden (pbegin → persisted)
 }
 
 type c02Run struct {
 	r  *ndRun
 	mu sync.Mutex
 
-	lines   []string
-	ids     map[chan error]int
-	nodes   []*c02Node
-	hits    map[string]int
-	crashed map[string]int
-	between int // crashes (of any kind) while an attest of the node was enqueued but not yet released
-	armed   int
-	hcrash  int
-	kindIdx int
-	queue   []string
+	lines     []string
+	ids       map[chan error]int
+	nodes     []*c02Node
+	hits      map[string]int
+	crashed   map[string]int
+	between   int // crashes (of any kind) while an attest of the node was enqueued but not yet released
+	armed     int
+	hcrash    int
+	kindIdx   int
+	queue     []string
+	pfails    int // persists that were made to fail
+	pfailAt   int // pfail decisions taken
+	ckptFirst int // marked attests whose checkpoint action started while the vote task was held before its wait
 }
 
 var c02Cur *c02Run
@@ -183,6 +199,19 @@ func c02Revert(n *ndNode, s c02Snap) error {
 	})
 }
 
+// c02HideTable: fault injection on the crash DB — while the table is renamed the real persist() fails ("no such table"),
+// exactly as a failed write leaves the previous row untouched.
+func c02HideTable(n *ndNode, hide bool) error {
+	return n.acc.Atomic(func(ctx context.Context, tx *sql.Tx) error {
+		q := "alter table ServiceHidden rename to Service"
+		if hide {
+			q = "alter table Service rename to ServiceHidden"
+		}
+		_, err := tx.Exec(q)
+		return err
+	})
+}
+
 func (c *c02Run) hook(point string, who interface{}, done chan error, r round, p period, s step, val proposalValue, err error, raw []byte) {
 	n := c.nodeOf(who)
 	if n == nil || !n.honest {
@@ -192,6 +221,15 @@ func (c *c02Run) hook(point string, who interface{}, done chan error, r round, p
 	if point == "persisted" {
 		if !cn.persistHeld {
 			return // the incarnation was frozen at or before its pbegin
+		}
+		if cn.failActive {
+			cn.failActive = false
+			if herr := c02HideTable(n, false); herr != nil {
+				c.r.note("C02-FAULT cannot restore the Service table: %v", herr)
+			}
+			if err == nil {
+				c.r.note("C02-FAULT persist did not fail although the table was hidden")
+			}
 		}
 	} else {
 		cn.hm.Lock()
@@ -227,6 +265,20 @@ func (c *c02Run) hook(point string, who interface{}, done chan error, r round, p
 		line = fmt.Sprintf("out %d %d %s", n.id, id, c02Att(r, p, s, val))
 	}
 	c.lines = append(c.lines, line)
+	if point == "attest" && cn.markLeft > 0 {
+		cn.markLeft--
+		if cn.markLeft == 0 {
+			cn.markDone, cn.markCkpt, cn.markWaited = done, false, false
+		}
+	}
+	marked := done != nil && cn.markDone == done
+	if marked && point == "ckpt" {
+		cn.markCkpt = true
+	}
+	if marked && point == "waitend" {
+		cn.markWaited = true
+	}
+	injectFail := marked && point == "pbegin" && cn.markFail
 	trigger := false
 	if cn.armKind == point {
 		cn.armLeft--
@@ -256,12 +308,72 @@ func (c *c02Run) hook(point string, who interface{}, done chan error, r round, p
 	switch {
 	case point == "pbegin" && !trigger:
 		cn.persistHeld = true // keep hm until `persisted`
+		if injectFail {
+			if herr := c02HideTable(n, true); herr == nil {
+				cn.failActive = true
+				c.mu.Lock()
+				c.pfails++
+				c.mu.Unlock()
+			}
+		}
 	case point == "persisted":
 		cn.persistHeld = false
 		cn.hm.Unlock()
 	default:
 		cn.hm.Unlock()
 	}
+	if marked && point == "waitbegin" && !trigger {
+		// hold the vote task before its wait on persistStateDone until the checkpoint action of this attest has started
+		// (signing / verifying slower than the disk), then give checkpointAction.do the time to get past its send
+		for i := 0; i < 3000; i++ {
+			c.mu.Lock()
+			seen, stop := cn.markCkpt, cn.stopping || cn.frozen || cn.markDone != done
+			c.mu.Unlock()
+			if seen {
+				c.mu.Lock()
+				c.ckptFirst++
+				fail := cn.markFail
+				c.mu.Unlock()
+				time.Sleep(5 * time.Millisecond)
+				if m, isM := who.(*coserviceMonitor); isM && fail {
+					go c.settleFailedTask(cn, m, done)
+				}
+				break
+			}
+			if stop {
+				break
+			}
+			time.Sleep(time.Millisecond)
+		}
+	}
+}
+
+// settleFailedTask: a vote task that receives the persist error returns without decrementing the package's (test-only)
+// coservice counter, so the node would never look quiescent again.  If the task has not passed its wait 300 ms after it
+// was let go, the harness decrements the counter for it.
+func (c *c02Run) settleFailedTask(cn *c02Node, m *coserviceMonitor, done chan error) {
+	for i := 0; i < 300; i++ {
+		time.Sleep(time.Millisecond)
+		c.mu.Lock()
+		over := cn.markWaited || cn.markDone != done
+		c.mu.Unlock()
+		if over {
+			return
+		}
+	}
+	m.Mutex.Lock()
+	ok := m.c != nil && m.c[pseudonodeCoserviceType] > 0
+	if ok {
+		m.c[pseudonodeCoserviceType]--
+	}
+	var sum uint
+	for _, v := range m.c {
+		sum += v
+	}
+	if ok && m.coserviceListener != nil {
+		m.coserviceListener.dec(sum, m.c)
+	}
+	m.Mutex.Unlock()
 }
 
 func (c *c02Run) isFrozen(id int) bool {
@@ -437,6 +549,19 @@ func (c *c02Run) generate() string {
 		}
 	}
 	c.mu.Unlock()
+	if !anyArmed && c.pfailAt < 5 && r.rng.Intn(1000) < 12+c.armPerMille()/4 {
+		hon := r.honestIDs()
+		n := hon[r.rng.Intn(len(hon))]
+		c.pfailAt++
+		if r.rng.Intn(4) == 0 {
+			return fmt.Sprintf("wdelay %d 1", n)
+		}
+		k := 1 + r.rng.Intn(2)
+		if r.rng.Intn(3) > 0 {
+			c.queue = append(c.queue, fmt.Sprintf("hcrash %d out %d", n, k)) // crash right after a release
+		}
+		return fmt.Sprintf("pfail %d %d", n, k)
+	}
 	if !anyArmed && c.armed < 14 && r.rng.Intn(1000) < c.armPerMille() {
 		hon := r.honestIDs()
 		n := hon[r.rng.Intn(len(hon))]
@@ -470,6 +595,19 @@ func (c *c02Run) execLine(line string) {
 		c.nodes[id].armKind, c.nodes[id].armLeft = f[2], k
 		c.mu.Unlock()
 		c.armed++
+		return
+	}
+	if len(f) == 3 && (f[0] == "pfail" || f[0] == "wdelay") {
+		id, k := -1, 1
+		fmt.Sscanf(f[1], "%d", &id)
+		fmt.Sscanf(f[2], "%d", &k)
+		if id < 0 || id >= len(r.nodes) || !r.nodes[id].honest || k < 1 {
+			r.diverged(line)
+			return
+		}
+		c.mu.Lock()
+		c.nodes[id].markLeft, c.nodes[id].markFail, c.nodes[id].markDone = k, f[0] == "pfail", nil
+		c.mu.Unlock()
 		return
 	}
 	if len(f) >= 2 && (f[0] == "crash" || f[0] == "crashmid") {
@@ -692,8 +830,8 @@ func TestVerifC02(t *testing.T) {
 			sort.Strings(ks)
 			return strings.Join(ks, ",")
 		}
-		fmt.Fprintf(sf, "sched %d profile=%s crashes=%d hookcrashes=%d armed=%d between=%d hits=%s crashedat=%s\n", cfg.id, cfg.profile,
-			r.stats.crashes+c.hcrash, c.hcrash, c.armed, c.between, keys(c.hits), keys(c.crashed))
+		fmt.Fprintf(sf, "sched %d profile=%s crashes=%d hookcrashes=%d armed=%d between=%d pfails=%d ckptfirst=%d hits=%s crashedat=%s\n", cfg.id, cfg.profile,
+			r.stats.crashes+c.hcrash, c.hcrash, c.armed, c.between, c.pfails, c.ckptFirst, keys(c.hits), keys(c.crashed))
 		c.mu.Unlock()
 		c02Cur = nil
 		if r.fatal != "" {
